@@ -310,6 +310,7 @@ func (w *World) CreatePod(s PodSpec) *corev1.Pod {
 	if !w.Cfg.Lag {
 		_ = w.podIdx.Add(pod.DeepCopy())
 	}
+	w.refreshDpStatus()
 	return pod
 }
 
@@ -335,6 +336,7 @@ func (w *World) DeletePod(key string) {
 	}
 	w.evSeq++
 	w.Pending = append(w.Pending, Event{Kind: "pod-delete", Pod: pod.DeepCopy(), Seq: w.evSeq})
+	w.refreshDpStatus()
 }
 
 // StaleSyncPodIP plays the part of the periodic pod-IP sync routine reaching the entry of a pod in a list it took while the pod
@@ -365,6 +367,7 @@ func (w *World) SetPhase(key string, phase corev1.PodPhase) {
 	}
 	w.evSeq++
 	w.Pending = append(w.Pending, Event{Kind: "pod-update", Pod: pod.DeepCopy(), Old: old, Seq: w.evSeq})
+	w.refreshDpStatus()
 }
 
 // SyncPodCache makes the informer cache of one pod equal to the truth (lag mode).
@@ -411,6 +414,31 @@ func (w *World) SetDeployment(ns, name string, replicas int) {
 	r := int32(replicas)
 	obj.Spec.Replicas = &r
 	_ = w.dpIdx.Update(obj)
+	w.refreshDpStatus()
+}
+
+// refreshDpStatus: status.replicas of every deployment = its pods that exist and have not finished (what the deployment
+// controller reports; during a rolling update with surge it exceeds spec.replicas).
+func (w *World) refreshDpStatus() {
+	for _, o := range w.dpIdx.List() {
+		dp := o.(*appsv1.Deployment)
+		n := int32(0)
+		for key, p := range w.Pods {
+			if !w.Alive(key) || p.Namespace != dp.Namespace {
+				continue
+			}
+			for _, ref := range p.OwnerReferences {
+				if ref.Kind == "ReplicaSet" && strings.HasPrefix(ref.Name, dp.Name+"-") {
+					n++
+				}
+			}
+		}
+		if dp.Status.Replicas != n {
+			c := dp.DeepCopy()
+			c.Status.Replicas = n
+			_ = w.dpIdx.Update(c)
+		}
+	}
 }
 
 // Replicas returns the replicas of a workload as the lister sees it, -1 if absent.
